@@ -23,13 +23,15 @@ def selLimit (sel : Bitmap) : Nat := Bits.words sel / 256
 
 /-- apply `f` to the selection bits of chunk `c` (the slice `OfBitmap` hands out) -/
 def mapChunk (sel : Bitmap) (c : Nat) (f : Nat → Bool → Bool) : Bitmap :=
-  (List.range 16384).foldl (fun (s : Bitmap) x =>
-    let i := 16384 * c + x
-    if i < s.size then s.setIfInBounds i (f i (s.getD i false)) else s) sel
+  sel.mapIdx (fun i b => if i / 16384 = c then f i b else b)
 
-/-- chunks `0 … limit` -/
-def mapChunks (sel : Bitmap) (f : Nat → Bool → Bool) : Bitmap :=
-  (List.range (selLimit sel + 1)).foldl (fun s c => mapChunk s c f) sel
+/-- chunks `0 … n-1` -/
+def mapChunksUpTo (sel : Bitmap) (f : Nat → Bool → Bool) : Nat → Bitmap
+  | 0 => sel
+  | n+1 => mapChunk (mapChunksUpTo sel f n) n f
+
+/-- chunks `0 … limit` (inclusive) -/
+def mapChunks (sel : Bitmap) (f : Nat → Bool → Bool) : Bitmap := mapChunksUpTo sel f (selLimit sel + 1)
 
 inductive FilterOp
   | with_ (names : List String)
@@ -52,15 +54,17 @@ def Txn.without (s : Store) (t : Txn) (names : List String) : Txn :=
     | some c => { t with sel := mapChunks t.sel (fun i b => b && !c.indexBit i) }
     | none => t) (t.initialize s)
 
+/-- one name of `Union`: the very first name of a first call intersects, all others unite;
+    a missing name only switches the "first" flag off -/
+def unionStep (s : Store) (acc : Txn × Bool) (n : String) : Txn × Bool :=
+  match s.findCol n with
+  | some c =>
+    (if acc.2 then { acc.1 with sel := mapChunks acc.1.sel (fun i b => b && c.indexBit i) }
+     else { acc.1 with sel := mapChunks acc.1.sel (fun i b => b || c.indexBit i) }, false)
+  | none => (acc.1, false)
+
 def Txn.union (s : Store) (t : Txn) (names : List String) : Txn :=
-  let first := !t.setup
-  (names.foldl (fun (acc : Txn × Bool) n =>
-    let (t, first) := acc
-    match s.findCol n with
-    | some c =>
-      (if first then { t with sel := mapChunks t.sel (fun i b => b && c.indexBit i) }
-       else { t with sel := mapChunks t.sel (fun i b => b || c.indexBit i) }, false)
-    | none => (t, false)) (t.initialize s, first)).1
+  (names.foldl (unionStep s) (t.initialize s, !t.setup)).1
 
 /-- `WithUnion` (after the single-name repair) -/
 def Txn.withUnion (s : Store) (t : Txn) (names : List String) : Txn :=
